@@ -143,7 +143,7 @@ impl Directive {
             }
             Directive::Undef => {
                 if let DirectiveOps::OpList(values) = opts {
-                    if let Operand::E(Expr::Ident(name)) = &values[0] {
+                    if let Some(Operand::E(Expr::Ident(name))) = values.first() {
                         context.push_to_last((point, Item::Undef(name.clone())))
                     } else {
                         bail!("Not allowed type of arguments for .{}, {}", self, point);
@@ -164,10 +164,12 @@ impl Directive {
                     if args.len() > 1 {
                         bail!("Too many arguments for {}", self);
                     }
-                    if let Operand::E(expr) = &args[0] {
+                    if let Some(Operand::E(expr)) = args.first() {
                         if let Expr::Const(n) = expr {
                             context.push_to_last((point, Item::ReserveData(*n)));
                         }
+                    } else {
+                        bail!("Not allowed type of arguments for .byte, {}", point);
                     }
                 } else {
                     bail!("Not allowed type of arguments for .byte, {}", point);
@@ -221,7 +223,7 @@ impl Directive {
             }
             Directive::Device => {
                 if let DirectiveOps::OpList(values) = opts {
-                    if let Operand::E(Expr::Ident(value)) = &values[0] {
+                    if let Some(Operand::E(Expr::Ident(value))) = values.first() {
                         if let Some(device) = DEVICES.get(value.as_str()) {
                             if let Some(old_device) = context
                                 .common_context
@@ -247,6 +249,8 @@ impl Directive {
                         } else {
                             bail!("unknown device {} in {}", value, point,)
                         }
+                    } else {
+                        bail!("wrong format for .device, expected: {} in {}", opts, point,);
                     }
                 } else {
                     bail!("wrong format for .device, expected: {} in {}", opts, point,);
@@ -254,7 +258,7 @@ impl Directive {
             }
             Directive::Include => {
                 if let DirectiveOps::OpList(values) = &opts {
-                    if let Operand::S(include) = &values[0] {
+                    if let Some(Operand::S(include)) = values.first() {
                         let context = ParseContext {
                             current_path: PathBuf::from(include),
                             include_paths: include_paths.clone(),
@@ -273,7 +277,7 @@ impl Directive {
             }
             Directive::IncludePath => {
                 if let DirectiveOps::OpList(values) = &opts {
-                    if let Operand::S(include) = &values[0] {
+                    if let Some(Operand::S(include)) = values.first() {
                         let path = PathBuf::from(include);
                         let path = if path.is_relative() {
                             let mut current_path = current_path.parent().unwrap().to_path_buf();
@@ -302,7 +306,7 @@ impl Directive {
             }
             Directive::If | Directive::ElIf => {
                 if let DirectiveOps::OpList(values) = &opts {
-                    if let Operand::E(expr) = &values[0] {
+                    if let Some(Operand::E(expr)) = values.first() {
                         let value = match expr.run(&context.common_context) {
                             Ok(value) => value,
                             Err(e) => bail!("{} in {}", e, point),
@@ -329,7 +333,7 @@ impl Directive {
             }
             Directive::IfNDef | Directive::IfDef => {
                 if let DirectiveOps::OpList(values) = &opts {
-                    if let Operand::E(Expr::Ident(name)) = &values[0] {
+                    if let Some(Operand::E(Expr::Ident(name))) = values.first() {
                         if context.common_context.defines.borrow().contains_key(name) {
                             if self == &Directive::IfNDef {
                                 next_item = NextItem::EndIf;
@@ -358,7 +362,7 @@ impl Directive {
             }
             Directive::Define => {
                 if let DirectiveOps::OpList(values) = &opts {
-                    if let Operand::E(Expr::Ident(name)) = &values[0] {
+                    if let Some(Operand::E(Expr::Ident(name))) = values.first() {
                         context
                             .common_context
                             .set_define(name.clone(), Expr::Const(0));
@@ -378,7 +382,7 @@ impl Directive {
             }
             Directive::Macro => {
                 if let DirectiveOps::OpList(values) = &opts {
-                    if let Operand::E(Expr::Ident(name)) = &values[0] {
+                    if let Some(Operand::E(Expr::Ident(name))) = values.first() {
                         context.macros.name.replace(name.clone());
                         next_item = NextItem::EndMacro;
                     } else {
@@ -392,7 +396,7 @@ impl Directive {
             Directive::CSegSize => {}
             Directive::Message | Directive::Warning | Directive::Error => {
                 if let DirectiveOps::OpList(values) = &opts {
-                    if let Operand::S(message) = &values[0] {
+                    if let Some(Operand::S(message)) = values.first() {
                         let message_type = match self {
                             Directive::Message => "info",
                             Directive::Warning => "warning",
